@@ -58,6 +58,7 @@ func main() {
 	overlayF := flag.String("overlay", "", "JSON file mapping absolute file path -> replacement file path")
 	dumpOnly := flag.Bool("nosolve", false, "generate only")
 	unroll := flag.Int("unroll", 0, "concretisation mode: unroll loops up to N back edges instead of cutting them (finds inputs, proves nothing)")
+	sweep := flag.Bool("sweep", false, "zero-annotation sweep: also process functions without a contract (safety obligations only; results are leads, not claims)")
 	target := flag.String("target", "", "concretisation mode: only obligations whose clause contains this text and (if given after '@') whose position matches")
 	verbose := flag.Bool("v", false, "verbose")
 	flag.Parse()
@@ -90,7 +91,7 @@ func main() {
 	}
 	res := &Result{Repo: *repo, Packages: patterns, SpecErr: w.specErr, Solvers: []string{"z3-new", "z3", "cvc5"}}
 	res.LoadMs = ms(time.Since(t0))
-	fns, missing := w.functionsUnderContract()
+	fns, missing := w.functionsUnderContract(*sweep)
 	res.Missing = missing
 	var onlyRe *regexp.Regexp
 	if *only != "" {
